@@ -29,8 +29,8 @@ def space(tier):
 def cases(tier):
     q = tier == 'quick'
     for d in ([1, 2, 3] if q else [1, 2, 3, 4]):
-        for dims in itertools.product([2, 3], repeat=d):
-            if d == 4 and np.prod(dims) > 24:
+        for dims in itertools.product([2, 3] if (q or d > 2) else [2, 3, 4], repeat=d):
+            if d == 4 and np.prod(dims) > 36:
                 continue
             for c in (False, True):
                 for g in (False, True):
